@@ -117,8 +117,15 @@ func (jt *JSONTable) RenderTo(w io.Writer) error {
 		return err
 	}
 	needComma := false
-	for _, r := range jt.AllRows() {
-		if needComma {
+	allRows := jt.AllRows()
+	lastObject := -1
+	for i, r := range allRows {
+		if !r.IsSeparator() {
+			lastObject = i
+		}
+	}
+	for i, r := range allRows {
+		if needComma && i <= lastObject {
 			if _, err = io.WriteString(w, ",\n"); err != nil {
 				return err
 			}
